@@ -120,7 +120,16 @@ def attempt(ctx, spec, pieces, work, tag, label, must_reject, target=None, old_i
         real_finalise_ok = accepted or not isinstance(err, ValueError) or "Overlapping" not in str(err)
         if m["accepts"] != real_finalise_ok:
             ctx.disagree(f"acceptance of partitions {parts_for_model} differs from Model.Checks.accepts ({label})", inp, m["accepts"], repr(err))
-    finished = (icf / "metadata.json").exists() and not accepted or (out / ".zmetadata").exists() and not accepted
+    if not accepted:
+        # "rejected with an error before any output presents as complete": the intermediate store must not load as finished
+        try:
+            vcf2zarr.IntermediateColumnarFormat(icf)
+            loads = True
+        except Exception:  # noqa: BLE001
+            loads = False
+        if loads:
+            ctx.violate(f"{label}: rejected with {type(err).__name__} ({str(err)[:80]}) but the intermediate store loads as a finished store",
+                        inp, "no complete-looking output", "ICF loads")
     if not accepted and (out / ".zmetadata").exists():
         ctx.violate(f"{label}: rejected with {type(err).__name__} but a finished Zarr store exists", inp, "no output", "finished store")
     if must_reject and accepted:
